@@ -893,6 +893,10 @@ class ExcelCompiler:
             else:
                 # CSE Array Formula
                 data = self.eval(cell_range, cell_range.address)
+                if self.cycles and cell_range.changed_by_more_than(
+                        data, iterative_eval_tracker.tolerance):
+                    # like a cell that moved: another iteration is needed
+                    iterative_eval_tracker.wip(cell_range)
             self.log.info(f"Range {cell_range.address} evaluated to '{data}'")
 
             cell_range.value = data
@@ -1218,6 +1222,16 @@ class _CellRange(_CellBase):
     @property
     def needed_addresses(self):
         return self.formula and self.formula.needed_addresses or iter(self)
+
+    def changed_by_more_than(self, data, tolerance):
+        """Did any element of data move more than tolerance from the value"""
+        if self.value is None:
+            return True
+        old_cell = _CellBase.__new__(_CellBase)
+        for old_cell.value, new_value in zip(flatten(self.value), flatten(data)):
+            if not old_cell.close_enough(new_value, tol=tolerance):
+                return True
+        return False
 
     def cells_to_build(self, data):
         assert isinstance(data.formula, tuple)
